@@ -300,8 +300,21 @@ class Canon:
             if op is not None:
                 return self._cmp(op, self.bits(e.left), self.bits(e.comparators[0]))
         if isinstance(e, ast.BoolOp):
-            vals = tuple(sorted((self.term(v) for v in e.values), key=repr))
-            return ("and" if isinstance(e.op, ast.And) else "or",) + vals
+            kind = "and" if isinstance(e.op, ast.And) else "or"
+            flat = []
+            for v in e.values:
+                t = self.term(v)
+                if isinstance(t, tuple) and t and t[0] == kind:
+                    flat.extend(t[1:])
+                else:
+                    flat.append(t)
+            uniq = []
+            for t in flat:
+                if t not in uniq:
+                    uniq.append(t)
+            if len(uniq) == 1:
+                return uniq[0]
+            return (kind,) + tuple(sorted(uniq, key=repr))
         if isinstance(e, ast.IfExp):
             return ("ifexp", self.term(e.test), self.bits(e.body), self.bits(e.orelse))
         if isinstance(e, ast.Call):
@@ -381,3 +394,36 @@ def mux_of(e, env=None):
             if ok:
                 return leaves[s], leaves[a], leaves[b]
     return None
+
+
+def conjuncts(tests, env=None, hook=None):
+    """canonical set of conjuncts of a path condition given as [(test AST, polarity)]"""
+    c = Canon(env, atom_hook=hook)
+    out = set()
+    for t, pol in tests:
+        term = c.term(t)
+        if not pol:
+            if isinstance(term, tuple) and term and term[0] == "cmp" and term[1] in Canon._NEG:
+                term = c._cmp(Canon._NEG[term[1]], term[2], term[3])
+            elif isinstance(term, tuple) and term and term[0] == "not":
+                term = term[1]
+            elif isinstance(term, tuple) and term and term[0] == "or":
+                # not (a or b) == not a and not b
+                for x in term[1:]:
+                    out |= conjuncts_of_term(c, ("not", x))
+                continue
+            else:
+                term = ("not", term)
+        out |= conjuncts_of_term(c, term)
+    return out
+
+
+def conjuncts_of_term(c, term):
+    if isinstance(term, tuple) and term and term[0] == "and":
+        out = set()
+        for x in term[1:]:
+            out |= conjuncts_of_term(c, x)
+        return out
+    if isinstance(term, tuple) and term and term[0] == "not" and isinstance(term[1], tuple) and term[1] and term[1][0] == "not":
+        return conjuncts_of_term(c, term[1][1])
+    return {term}
